@@ -123,7 +123,8 @@ func (d DayAlignmentPeriod) GetStartTime(t time.Time) time.Time {
 }
 
 func (d DayAlignmentPeriod) GetEndTime(t time.Time) time.Time {
-	return d.GetStartTime(t).Add(24 * time.Hour)
+	// Not all days are 24 hours long (daylight-saving changes), advance by a calendar day
+	return d.GetStartTime(t).AddDate(0, 0, 1)
 }
 
 func (w WeekAlignmentPeriod) GetStartTime(t time.Time) time.Time {
